@@ -132,6 +132,7 @@ SPEC = {
     "harnesses": [
         _h("c05_g_blocks_k2", Q, "history/blocks in any order", "fresh node, window 0; 2 events of symbolic kind among 4 block arrivals (two competing chains over slots 1-2)", 2),
         _h("c05_g_blocks_k3", T, "history/blocks in any order", "as c05_g_blocks_k2 with 3 events", 2),
+        _h("c05_g_gap_k2", Q, "history/blocks not building on the preceding slot", "slot 1 notarized (concrete prefix); 2 events among a slot-3 block on the slot-1 block (slot 2 left out), a slot-2 block on genesis, the regular slot-2 block, timeout", 2),
         _h("c05_g_chain_k3", T, "history/one chain in any order", "fresh node, window 0; 3 events among the 3 blocks of one chain over slots 1-3", 2),
         _h("c05_g_timeouts_k2", Q, "history/blocks against timeouts", "fresh node, window 0; 2 events among 2 blocks, 2 timeouts, invalid block, first shred", 2),
         _h("c05_g_timeouts_k3", T, "history/blocks against timeouts", "fresh node, window 0; 3 events among 2 blocks, 2 timeouts, invalid block", 2),
